@@ -161,7 +161,7 @@ func All() []Val {
 
 // ByName looks a value up by its label.
 func ByName(name string) (Val, bool) {
-	for _, v := range All() {
+	for _, v := range Thorough() {
 		if v.Name == name {
 			return v, true
 		}
@@ -185,3 +185,61 @@ func StateKey(o tengo.Object) string {
 	snap(&sb, o, map[interface{}]bool{deepFuncs{}: true}, 0)
 	return string(sb)
 }
+
+// Extended returns additional values used by the thorough tiers (on top of All()).
+func Extended() []Val {
+	und := func() tengo.Object { return tengo.UndefinedValue }
+	long := ""
+	for k := 0; k < 7; k++ {
+		long += "0123456789"
+	}
+	return []Val{
+		{"i10", "10", i(10), "int"},
+		{"i64", "64", i(64), "int"},
+		{"i2^31", "2147483648", i(1 << 31), "int"},
+		{"i2^32+65", "4294967361", i(1<<32 + 65), "int"},
+		{"i-2^31", "-2147483648", i(-(1 << 31)), "int"},
+		{"i2^62", "4611686018427387904", i(1 << 62), "int"},
+		{"f0.5", "0.5", f(0.5), "float"},
+		{"f-1", "-1.0", f(-1), "float"},
+		{"f2", "2.0", f(2), "float"},
+		{"f1e-7", "1e-7", f(1e-7), "float"},
+		{"f1e20", "1e20", f(1e20), "float"},
+		{"f2^63", "9223372036854775808.0", f(9223372036854775808.0), "float"},
+		{"f-max", "", f(-math.MaxFloat64), "float"},
+		{"cspace", "' '", c(' '), "char"},
+		{"cnl", "'\\n'", c('\n'), "char"},
+		{"c9", "'9'", c('9'), "char"},
+		{"c7f", "'\\x7f'", c(0x7f), "char"},
+		{"cfffd", "'\\ufffd'", c(0xFFFD), "char"},
+		{"s-space", `" "`, s(" "), "string"},
+		{"s-abc", `"abc"`, s("abc"), "string"},
+		{"s-Ab", `"Ab"`, s("Ab"), "string"},
+		{"s--1", `"-1"`, s("-1"), "string"},
+		{"s-+1", `"+1"`, s("+1"), "string"},
+		{"s-1e3", `"1e3"`, s("1e3"), "string"},
+		{"s-0x10", `"0x10"`, s("0x10"), "string"},
+		{"s-NaN", `"NaN"`, s("NaN"), "string"},
+		{"s-false", `"false"`, s("false"), "string"},
+		{"s-cjk", `"世界"`, s("世界"), "string"},
+		{"s-long", `"` + long + `"`, s(long), "string"},
+		{"b-nul", "", b("\x00"), "bytes"},
+		{"b-abc", `bytes("abc")`, b("abc"), "bytes"},
+		{"a-undef", "[undefined]", arr(und), "array"},
+		{"a-0", "[0]", arr(i(0)), "array"},
+		{"a-deep", "[1, [2, [3]]]", arr(i(1), arr(i(2), arr(i(3)))), "array"},
+		{"a-str", `["a"]`, arr(s("a")), "array"},
+		{"ia-deep", "immutable([1, [2]])", imarr(i(1), arr(i(2))), "imarray"},
+		{"m-undef", "{a: undefined}", mp(kv{"a", und}), "map"},
+		{"m-nested", "{a: {b: 1}}", mp(kv{"a", mp(kv{"b", i(1)})}), "map"},
+		{"e-undef", "error(undefined)", func() tengo.Object { return &tengo.Error{Value: tengo.UndefinedValue} }, "error"},
+		{"e-err", `error(error("x"))`, func() tengo.Object {
+			return &tengo.Error{Value: &tengo.Error{Value: &tengo.String{Value: "x"}}}
+		}, "error"},
+		{"t-unix-1", "time(-1)", t(time.Unix(-1, 0)), "time"},
+		{"t-far", "", t(time.Date(9999, 12, 31, 23, 59, 59, 999999999, time.UTC)), "time"},
+	}
+}
+
+// Thorough returns All() followed by Extended().
+func Thorough() []Val { return append(All(), Extended()...) }
